@@ -645,6 +645,20 @@ impl Net {
                                 "none".to_string()
                             }
                         }
+                        // the same wait, but the bytes themselves are the answer: the library's greeting and READY as
+                        // this peer received them, on a connection it ACCEPTED or one it made with connect()
+                        "hsdump" => {
+                            let ok = Net::read_until(rc, pos_deadline(), |c| c.inbuf.len() > 66 && c.inbuf.len() >= 66 + c.inbuf[65] as usize).await;
+                            if ok {
+                                let n = 66 + rc.inbuf[65] as usize;
+                                let b: Vec<u8> = rc.inbuf.drain(..n).collect();
+                                format!("hs {}", b.iter().map(|x| format!("{:02x}", x)).collect::<String>())
+                            } else if rc.eof {
+                                "eof".to_string()
+                            } else {
+                                "none".to_string()
+                            }
+                        }
                         // the library's own greeting (sent as soon as its handshake task for this
                         // connection runs): the barrier "this connection HAS been accepted"
                         "greeting" => {
@@ -715,6 +729,38 @@ impl Net {
                             }
                         }
                         _ => "bad-op".to_string(),
+                    }
+                })
+            }
+            // rawdrain c <n>: the peer reads (and discards) at least n bytes of what the library sends it
+            "rawdrain" => {
+                let c = num(1).unwrap();
+                let want = num(2).unwrap_or(0);
+                let rc = match self.raws.get_mut(&c) {
+                    Some(rc) => rc,
+                    None => return "bad-op no-raw".into(),
+                };
+                self.rt.block_on(async {
+                    let end = tokio::time::Instant::now() + pos_deadline() * 2;
+                    let mut got = rc.inbuf.len();
+                    rc.inbuf.clear();
+                    let mut buf = vec![0u8; 1 << 16];
+                    while got < want && !rc.eof {
+                        match tokio::time::timeout_at(end, rc.io.read(&mut buf)).await {
+                            Err(_) => {
+                                note_expired();
+                                break;
+                            }
+                            Ok(Ok(0)) | Ok(Err(_)) => rc.eof = true,
+                            Ok(Ok(n)) => got += n,
+                        }
+                    }
+                    if got >= want {
+                        "drained".to_string()
+                    } else if rc.eof {
+                        format!("eof after {}", got)
+                    } else {
+                        format!("short {}", got)
                     }
                 })
             }
@@ -808,8 +854,15 @@ impl Net {
                     for i in 0..count {
                         let mut topic = vec![0x41u8 + (i % 26) as u8; size];
                         topic.extend_from_slice(format!("-{}", i).as_bytes());
+                        let topic = String::from_utf8(topic).unwrap();
                         let res = match &mut sock {
-                            Sock::Sub(x) => x.subscribe(&String::from_utf8(topic).unwrap()).await,
+                            Sock::Sub(x) => match tokio::time::timeout(pos_deadline() * 2, x.subscribe(&topic)).await {
+                                Ok(r) => r,
+                                Err(_) => {
+                                    note_expired();
+                                    return "none".to_string();
+                                }
+                            },
                             _ => Err(ZmqError::Other("not a SUB socket")),
                         };
                         if let Err(e) = res {
@@ -945,6 +998,11 @@ impl Net {
                 self.monitors.insert(s, rx);
                 "ok".into()
             }
+            // monitordrop s: the application drops the receiver it got from monitor() (the task that read the events ended)
+            "monitordrop" => match self.monitors.remove(&num(1).unwrap()) {
+                Some(_) => "ok".into(),
+                None => "bad-op no-monitor".into(),
+            },
             // events s <n>: wait until at least n events have arrived (deadline), print their classes sorted
             "events" => {
                 use futures::StreamExt;
